@@ -155,8 +155,82 @@ def mutate(gc, a, rng):
     return gc.Action(a.action_type, ps)
 
 
+TRICKY = ["EOF", "xEOFy", "GEOFF", "EOFEOF", 'a"b', "a\\b", "}{", "  padded  ", "\u00e9\u4e2d", "tab\tnew\nline", "ActionType.QuitGame", "null", "{\"ip\": 1}", "'", "%s"]
+
+
+def wire_probe(ctx):
+    """The wire as the coordinator implements it: actions with awkward (but legal) text fields are sent as Action.to_json() to
+    the real AgentServer / dispatcher; the action that reaches the game (the one recorded in the trajectory handed out with
+    the reset) must equal the action sent - same value, same hash; texts whose action type is not supported must be refused."""
+    sys.path[:0] = [CK.HARNESS]
+    import nsgenv
+    import coordrun as CR
+    gc = _impl()
+    rng = random.Random(ctx.seed * 131 + 14)
+    cfg = nsgenv.base_config("scenario1_small", required_players=1)
+    cfg["coordinator"]["agents"]["Attacker"].pop("max_steps", None)
+    cfg["coordinator"]["agents"]["Attacker"]["goal"]["known_data"] = {}
+    cfg["coordinator"]["agents"]["Attacker"]["goal"]["known_hosts"] = ["1.1.1.1"]
+    stats = {"actions_sent": 0, "unsupported_types_sent": 0}
+    S = CR.Session(cfg)
+    S.d.on_segment = None
+    d = S.d
+    a = ("10.3.14.1", 1401)
+    try:
+        d.connect(a); d.settle()
+        d.send(a, nsgenv.join("w", "Attacker")); d.settle()
+        d.new_output(a)
+        sent = []
+        pool = list(TRICKY)
+        rng.shuffle(pool)
+        src, tgt = gc.IP("192.168.2.2"), gc.IP("213.47.23.195")
+        for i, t in enumerate(pool):
+            t2 = pool[(i + 1) % len(pool)]
+            acts = [gc.Action(gc.ActionType.ExfiltrateData, {"source_host": src, "target_host": tgt, "data": gc.Data(t, t2, size=i, type=t)}),
+                    gc.Action(gc.ActionType.ExploitService, {"source_host": src, "target_host": src,
+                                                             "target_service": gc.Service(t, t2, t, is_local=bool(i % 2))})]
+            for act in acts:
+                d.send(a, act.to_json()); d.settle()
+                out = d.new_output(a)
+                stats["actions_sent"] += 1
+                st = json.loads(out[0][:-3].decode()).get("status") if len(out) == 1 else None
+                if st != "GameStatus.OK":
+                    ctx.violations.append({"key": "legal action refused on the wire", "what": f"a well-formed action whose text fields are {t!r}/{t2!r} was answered with {st} ({len(out)} answers) instead of being played",
+                                           "replay": {"kind": "wire_probe", "text": t}})
+                else:
+                    sent.append(act)
+        for bogus in ("ActionType.FindEOFData", "EOFActionType.FindData", "ActionType.FindDataEOF", "ActionType.EOF"):
+            d.send(a, json.dumps({"action_type": bogus, "parameters": {"source_host": {"ip": "192.168.2.2"}, "target_host": {"ip": "192.168.2.2"}}})); d.settle()
+            out = d.new_output(a)
+            stats["unsupported_types_sent"] += 1
+            st = json.loads(out[0][:-3].decode()).get("status") if len(out) == 1 else None
+            if st != "GameStatus.BAD_REQUEST":
+                ctx.violations.append({"key": "unsupported action type accepted on the wire", "what": f"a text naming the unsupported action type {bogus!r} was answered with {st} instead of BAD_REQUEST",
+                                       "replay": {"kind": "wire_probe", "text": bogus}})
+        d.send(a, nsgenv.msg("ResetGame", request_trajectory="True")); d.settle()
+        out = d.new_output(a)
+        doc = json.loads(out[0][:-3].decode()) if len(out) == 1 else {}
+        rec = ((doc.get("message") or {}).get("last_trajectory") or {}).get("trajectory", {}).get("actions")
+        if rec is None:
+            ctx.stage_errors.append(("wire probe", f"no trajectory handed out: {str(doc)[:200]} {d.task_errors[:1]}"))
+        else:
+            got = [gc.Action.from_dict(x) for x in rec]
+            if len(got) != len(sent):
+                ctx.violations.append({"key": "actions lost or duplicated on the wire", "what": f"{len(sent)} actions were played, the trajectory records {len(got)}", "replay": {"kind": "wire_probe"}})
+            for x, y in zip(sent, got):
+                if x != y or hash(x) != hash(y):
+                    ctx.violations.append({"key": "action changed on the wire", "what": f"sent {x!r}, the game played {y!r}", "replay": {"kind": "wire_probe", "action": x.as_dict}})
+                    break
+        if d.task_errors:
+            ctx.violations.append({"key": "task died in the wire probe", "what": str(d.task_errors[:1]), "replay": {"kind": "wire_probe"}})
+    finally:
+        S.close()
+    ctx.coverage["wire_probe"] = stats
+
+
 def correspondence(ctx):
     gc = _impl()
+    wire_probe(ctx)
     rng = random.Random(ctx.seed)
     thorough = ctx.tier == "thorough"
     actions = gen_actions(gc, rng, 4 if thorough else 1)
@@ -274,6 +348,14 @@ def correspondence(ctx):
 def replay(ctx, payload):
     gc = _impl()
     k = payload.get("kind")
+    if k == "wire_probe":
+        c2 = CK.Ctx("C14", "quick", getattr(ctx, "seed", 1))
+        wire_probe(c2)
+        for v in c2.violations:
+            print(v["what"])
+        if c2.violations:
+            print("VIOLATION property=C14 replay=(this file)")
+        return 1 if c2.violations else 0
     if k == "action_doc":
         try:
             a = gc.Action.from_dict(payload["doc"])
